@@ -135,7 +135,7 @@ def ob_mutate(name, tindex, kind, positions):
         triples.append((base, "_calc_checksum", calc))
     npaths = 0
     for pos in positions:
-        if pos > len(t) or (kind == "sub" and pos >= len(t)):
+        if pos > len(t) or (kind in ("sub", "bsub") and pos >= len(t)):
             continue
         ch = z3.BitVec("c", 21)
         valid_cp = z3.And(z3.ULE(ch, 0x10FFFF), z3.Or(z3.ULT(ch, 0xD800), z3.UGT(ch, 0xDFFF)))
@@ -170,6 +170,25 @@ def ob_mutate(name, tindex, kind, positions):
             continue
         npaths += len(paths)
         bad = None
+        if kind == "bsub":
+            # bytes differ from text only in the first conversion step; what is claimed here is that every byte value gets an
+            # answer or a documented error (acceptance is decided by the 'sub' obligations).  Witness: the unmodified bytes
+            # are identified on some path.
+            if not any(p.exc is None and p.result.get("identify") is True and check(p.cond(), ch == ord(orig_ch))[0] == "sat" for p in paths):
+                results.append(inconclusive("vacuous: the unmodified hash (as bytes) is not identified on any path at position %d" % pos,
+                                            name="%s[#%d,%s@%d]" % (name, tindex, kind, pos)))
+                continue
+        if kind == "sub" and good_chk is not None and hasattr(base, "_calc_checksum"):
+            # reachability witness: with the original character this is the unmodified hash, which must verify on some path
+            def _accepts(p):
+                v = p.result.get("verify") if p.exc is None else None
+                if v is True:
+                    return check(p.cond(), ch == ord(orig_ch))[0] == "sat"
+                return isinstance(v, SBool) and check(p.cond(), v.e, ch == ord(orig_ch))[0] == "sat"
+            if not any(_accepts(p) for p in paths):
+                results.append(inconclusive("vacuous: the unmodified hash does not verify on any path at position %d (a model or "
+                                            "stub rejects everything)" % pos, name="%s[#%d,%s@%d]" % (name, tindex, kind, pos)))
+                continue
         for p in paths:
             if p.exc is not None:
                 bad = ("raises %s: %s" % (type(p.exc).__name__, p.exc), p)
